@@ -198,7 +198,9 @@ def seq_job(args):
         x0_before = x0_arr.copy()
         obj = lossref.make_loss(kind, list(theta_gen), m, x0_arr, t0, times, yin, cols if p > 1 else cols[0])
         # a second loss object on the SAME model object (another data set, another parameter vector), evaluated in between
-        obj2 = lossref.make_loss("Square", list(th_b), m, [v * 1.2 + 0.1 for v in x0], t0, times[:4], np.asarray(y[:4, 0]).copy(), cols[0])
+        # (same initial state, the same NUMBER of observation times but other times; it is asked about the very parameter
+        # vector the object under test is asked about next)
+        obj2 = lossref.make_loss("Square", list(th_b), m, list(x0), t0, times * 0.9 + 0.07, np.asarray(y[:, 0]).copy() * 1.1, cols[0])
     except Exception as e:
         out["viol"].append((dict(sig, what="raised"), {"model": name, "loss": kind, "state_name": cols, "error": "%s: %s" % (type(e).__name__, e)}))
         return out
@@ -212,7 +214,7 @@ def seq_job(args):
         xx = cur_x0
         if k in (2, 5, 8):
             try:
-                obj2.cost([v * (1 + 0.01 * k) for v in th_b])
+                obj2.cost(list(th))
             except Exception:
                 pass
         try:
